@@ -307,7 +307,11 @@ def writearlpackedbit(infile, path):
     for ti, (time, thead) in enumerate(zip(times, theads)):
         for propk in thead.dtype.names:
             if propk in ('NX', 'NY', 'NZ'):
-                thead[propk] = '%3d' % props[propk]
+                # thousands of NX and NY are carried by the GRID letters
+                thead[propk] = '%3d' % (props[propk] % 1000)
+            elif propk == 'GRID' and max(props['NX'], props['NY']) >= 1000:
+                thead[propk] = (chr(64 + props['NX'] // 1000) +
+                                chr(64 + props['NY'] // 1000))
             elif propk == 'LENH':
                 thead[propk] = '%4d' % datamap['vardef'][ti].itemsize
             else:
